@@ -16,7 +16,7 @@ from ..seed import digest
 
 ID = "C16"
 ENVS = ["absent"]
-RUNS = {"quick": 4800, "thorough": 80000}
+RUNS = {"quick": 48000, "thorough": 480000}
 RULE = ("case = (constructor route, dataset with insertion orders, history of 1-12 mutators / derivations incl. "
         "removals of foreign or of all elements); distinct = distinct case digest; non-trivial = at least one mutator "
         "changed the dataset or one derived object was checked")
@@ -265,8 +265,8 @@ def run_case(case, ctx):
             ctx.probe("unified_checked")
             ctx.probe("derived_checked")
             want = model.unify(before)
-            if canon_rankings(ud.rankings) != want:
-                report([("unified_dataset", model.canon(canon_rankings(ud.rankings)), model.canon(want))],
+            if canon_rankings(ud.rankings) != model.renorm(want):
+                report([("unified_dataset", model.canon(canon_rankings(ud.rankings)), model.canon(model.renorm(want)))],
                        "C16/unification", kind)
             report(dataset_views(ud, "unified_dataset()"), "C16/derived-views", kind)
         elif kind == "sub_problem":
@@ -280,7 +280,7 @@ def run_case(case, ctx):
                 oks, sub = call(ds.sub_problem_from_ids, {e2i[e] for e in keep})
             else:
                 oks, sub = call(ds.sub_problem_from_elements, {Element(e) for e in keep})
-            want = model.project(before, keep)
+            want = model.renorm(model.project(before, keep))
             ctx.probe("projection_checked")
             ctx.probe("derived_checked")
             if not oks:
@@ -319,7 +319,7 @@ def _after_mutator(ctx, ds, before, okm, res, opname, expected_fn, report, keep_
         if after != before:
             ctx.probe("mutator_changed")
         ctx.state([opname, "ok", shape])
-        want = expected_fn()
+        want = model.renorm(expected_fn())
         # emptied rankings may be kept or dropped: the statement does not say
         ne = lambda rs: [r for r in rs if len(r) > 0]
         if ne(after) != ne(want):
